@@ -456,6 +456,7 @@ fn run(r: &mut Report, sc: &Scenario) {
         stop.store(true, Ordering::SeqCst);
     });
 
+    col.settle();
     let records = col.records();
     let polled = polled.into_inner().unwrap();
     let ms = otlp.metric_source();
